@@ -208,4 +208,14 @@ C04_AvailReq(in, pr) ==
   /\ pr.sync                                   \* entrait's fixed requirement Sync + 'static ('static: all probes are)
   /\ (in.byvalue => pr.send)                   \* and Send for by-value receivers
   /\ (in.mocksupport => pr.shape = "implT")    \* mockable: for Impl<T> (and the mock type); otherwise every qualifying type
+
+(***************************************************************************)
+(* C06  Entraited traits: Impl<T> implements the trait exactly when T      *)
+(*      provides it in the selected way (with entrait's fixed              *)
+(*      T: Sync + 'static).  app: [provides, sync, static]                 *)
+(* C07  Impl<T> implements the trait iff T selects a target.               *)
+(* (The forwarding halves of C05 / C06 / C07 are the guards of Runtime.)   *)
+(***************************************************************************)
+C06_AvailReq(app) == app.provides /\ app.sync /\ app.static
+C07_AvailReq(app) == app.selects
 =============================================================================
